@@ -22,7 +22,6 @@ package main
 //	msgF1Class(md, b)          recogniser of known finding F1
 //	msgHasLazy(md)             some reachable field is declared [lazy=true]
 //	msgFB1Class(md, b)         recogniser of finding FB1 (legacy message fields)
-//	msgFB4Class(md, b)         recogniser of finding FB4 (reflection path panics on a map entry)
 //	msgFB3Class(md, b)         recogniser of finding FB3 (ConsumeGroup budget on the reflection path)
 //	msgLegacyReach(md), msgDepthExact(mt)   types whose table-driven decoder is not the modelled one
 
@@ -375,62 +374,6 @@ func msgFB1Class(md protoreflect.MessageDescriptor, b []byte) bool {
 		}
 		if ch.typ == protowire.StartGroupType {
 			if p, n := protowire.ConsumeGroup(ch.num, ch.val); n >= 0 && msgFB1Class(sub, p) {
-				return true
-			}
-		}
-	}
-	return false
-}
-
-// msgFB4Class recognises the input class of finding FB4: in some map entry (reachable through
-// known message fields) the key field occurs with a wire type its kind accepts and the LAST
-// occurrence of the key field has a wire type it rejects.
-func msgFB4Class(md protoreflect.MessageDescriptor, b []byte) bool {
-	chunks := msgSplitPrefix(b) // the input may be damaged further on
-	for _, ch := range chunks {
-		fd := msgFindField(md, ch.num)
-		if fd == nil || !msgFieldAccepts(fd, ch.typ) {
-			continue
-		}
-		if fd.IsMap() {
-			payload, n := protowire.ConsumeBytes(ch.val)
-			if n < 0 {
-				continue
-			}
-			entry := msgSplitPrefix(payload)
-			haveKey, lastBad := false, false
-			for _, e := range entry {
-				switch e.num {
-				case 1:
-					if msgFieldAccepts(fd.MapKey(), e.typ) {
-						haveKey, lastBad = true, false
-					} else {
-						lastBad = true
-					}
-				case 2:
-					if vm := fd.MapValue().Message(); vm != nil && e.typ == protowire.BytesType {
-						if p, k := protowire.ConsumeBytes(e.val); k >= 0 && msgFB4Class(vm, p) {
-							return true
-						}
-					}
-				}
-			}
-			if haveKey && lastBad {
-				return true
-			}
-			continue
-		}
-		sub := fd.Message()
-		if sub == nil {
-			continue
-		}
-		if ch.typ == protowire.BytesType {
-			if p, n := protowire.ConsumeBytes(ch.val); n >= 0 && msgFB4Class(sub, p) {
-				return true
-			}
-		}
-		if ch.typ == protowire.StartGroupType {
-			if p, n := protowire.ConsumeGroup(ch.num, ch.val); n >= 0 && msgFB4Class(sub, p) {
 				return true
 			}
 		}
